@@ -152,7 +152,30 @@ func eq(a, b string) string {
 }
 
 func app(f string, args ...string) string {
+	// peephole: x+0, 0+x, x-0 (index arithmetic produces many of them; smaller terms for the solvers)
+	if len(args) == 2 {
+		switch f {
+		case "bvadd":
+			if isZeroLit(args[1]) {
+				return args[0]
+			}
+			if isZeroLit(args[0]) {
+				return args[1]
+			}
+		case "bvsub":
+			if isZeroLit(args[1]) {
+				return args[0]
+			}
+			if args[0] == args[1] && strings.HasPrefix(args[0], "#x") {
+				return args[0][:2] + strings.Repeat("0", len(args[0])-2)
+			}
+		}
+	}
 	return "(" + f + " " + strings.Join(args, " ") + ")"
+}
+
+func isZeroLit(t string) bool {
+	return strings.HasPrefix(t, "#x") && strings.Trim(t[2:], "0") == ""
 }
 
 func sel(a, i string) string      { return "(select " + a + " " + i + ")" }
@@ -370,6 +393,14 @@ func runOne(ctx context.Context, sp solverSpec, file string, timeoutS int) (stat
 // Solve races the solvers on a query. In confirm mode all solvers are run to
 // completion and disagreements are reported as status "disagree".
 func Solve(query string, timeoutS int, confirm bool, tag string) SolverResult {
+	return SolveWithQF(query, "", timeoutS, confirm, tag)
+}
+
+// SolveWithQF additionally races z3 on a quantifier-free weakening of the query (the
+// quantified hypotheses are dropped, their goal-directed instances kept; logic QF_AUFBV,
+// whose bit-vector tactic decides index arithmetic that the generic core does not).
+// Only an `unsat` answer of that run counts: fewer hypotheses prove no less safely.
+func SolveWithQF(query, qf string, timeoutS int, confirm bool, tag string) SolverResult {
 	f, err := os.CreateTemp(workDir(), "q-*.smt2")
 	if err != nil {
 		return SolverResult{Status: "error", Raw: err.Error()}
@@ -386,7 +417,7 @@ func Solve(query string, timeoutS int, confirm bool, tag string) SolverResult {
 	}
 	ctx, cancel := context.WithCancel(context.Background())
 	defer cancel()
-	ch := make(chan ans, len(solvers))
+	ch := make(chan ans, len(solvers)+1)
 	var wg sync.WaitGroup
 	for _, sp := range solvers {
 		wg.Add(1)
@@ -395,6 +426,24 @@ func Solve(query string, timeoutS int, confirm bool, tag string) SolverResult {
 			st, out, secs := runOne(ctx, sp, name, timeoutS)
 			ch <- ans{sp.name, st, out, secs}
 		}(sp)
+	}
+	if qf != "" {
+		qfFile, err := os.CreateTemp(workDir(), "qf-*.smt2")
+		if err == nil {
+			qfName := qfFile.Name()
+			qfFile.WriteString(qf)
+			qfFile.Close()
+			defer os.Remove(qfName)
+			wg.Add(1)
+			go func() {
+				defer wg.Done()
+				st, out, secs := runOne(ctx, solvers[0], qfName, timeoutS)
+				if st != "unsat" {
+					st, out = "cancelled", "" // a weakened query that is not refuted says nothing
+				}
+				ch <- ans{"z3-new-qf", st, out, secs}
+			}()
+		}
 	}
 	go func() { wg.Wait(); close(ch) }()
 	res := SolverResult{Status: "unknown", All: map[string]string{}}
